@@ -240,9 +240,14 @@ where
             recycle_tx.send(prev_buffer).ok();
 
             if self.buffer.block.data().len() > 0 {
-                break;
+                return Ok(());
             }
         }
+
+        // EOF: There is no block at the current position. The previously read block must not be
+        // kept, or its data would be returned again, e.g., after seeking to the end of a stream
+        // that has no EOF block.
+        self.buffer.block.clear(self.position);
 
         Ok(())
     }
